@@ -453,4 +453,21 @@ def passF (sys : DagSys S V R) (c : Nat → S) : Nat → Nat → S × R
 def passS (sys : DagSys S V R) (c : Nat → S) (i : Nat) : S := (passF sys c (i + 1) i).1
 def passR (sys : DagSys S V R) (c : Nat → S) (i : Nat) : R := (passF sys c (i + 1) i).2
 
+/-- the instance the workflow-level recovery theorem is proved for: step `i` is one ResourceFunction evaluation
+    (`rfPass`) whose machine and flags may depend on the Ok values `vs` of its dependencies (the target is built
+    from the step's inputs); its Ok value is the live object it saw; `none` = not evaluated (DepSkip) -/
+def rfSys (n : Nat) (deps : Nat → List Nat) (mach : Nat → List S → RMach S) (cfg : Nat → List S → RfCfg) :
+    DagSys S S (Option (RAns S)) where
+  n := n
+  deps := deps
+  pass := fun i vs s => ((rfPass (mach i vs) (cfg i vs) none s).st, some (rfPass (mach i vs) (cfg i vs) none s).ans)
+  okv := fun r => match r with
+    | some (.ok x) => some x
+    | _ => none
+  gated := none
+
+/-- what an evaluation hit by a fault (or cancelled half-way) may do to the step's resource -/
+def rfFaulty (mach : Nat → List S → RMach S) (cfg : Nat → List S → RfCfg) : Nat → List S → S → S → Prop :=
+  fun i vs s s' => ∃ f, s' = (rfPass (mach i vs) (cfg i vs) f s).st
+
 end Koreo.WorkflowFaults
